@@ -232,6 +232,22 @@ theorem safeNodeUnlock_complete (lock msgHigh : Gen.Bft.View) (hh : lock.Height 
   unfold safeNodeUnlock
   rw [viewLess_iff]; omega
 
+/-- **The replicas' unlock rule agrees with the leader's order.** The leader keeps, among the locks reported to it, the
+    one the replacement test of `handleHighQCVDFAndEvidence` ranks highest (`adoptHigher`, i.e. `View.Less`: height, root
+    height, round, phase); whenever that test ranks `new` above `lock`, a replica locked at `lock` takes SafeNode's LIVENESS
+    branch for a proposal justified by `new` — across root heights too (a lock at (h, r) yields to one at (h+1, 0)). If the
+    two rules ordered certificates differently, the leader would keep re-proposing a lock that lower-locked replicas refuse. -/
+theorem replica_unlock_agrees_with_leader_order (lock new voteHdr : Gen.Bft.View)
+    (h : adoptHigher true lock new voteHdr = true) : safeNodeUnlock lock new = true := by
+  unfold adoptHigher at h
+  unfold safeNodeUnlock
+  simpa using h
+
+/-- ... and the leader's test is the lexicographic order on (height, root height, round, phase) -/
+theorem leader_order_is_viewLess (lock new voteHdr : Gen.Bft.View) :
+    adoptHigher true lock new voteHdr = View.Less (some lock) (some new) := by
+  unfold adoptHigher; simp
+
 theorem genUnlock_complete (w y : Bft.View) (h : w < y) : genUnlock w y = true :=
   safeNodeUnlock_complete (hdrOf w phase_PROPOSE_VOTE) (hdrOf y phase_PROPOSE_VOTE) rfl h
 
